@@ -3,6 +3,7 @@ import TrionModel.Lemmas.ScopePanic
 import TrionModel.Lemmas.ScopeFrame
 import TrionModel.Lemmas.ScopeRun
 import TrionModel.Lemmas.ScopeRetry
+import TrionModel.Lemmas.ScopeHandUp
 /-!
 # C14 — constant visibility follows file scope
 
@@ -658,6 +659,106 @@ theorem isolation_retry_finalize {ops : List Op} {s s' : State} (hrun : run init
     | false => exact hgu.elim
     | true => exact .inr ⟨n, tag, v, hmem, hval, hfind⟩
 
+/-! ## isolation — what a file may hand UP to its includer
+
+`isolation_retry_exit` says that a stage-2 retry resolves in the table of the file being left — which for a task handed
+up by an included file is the INCLUDER of the file that contains the `.du32`.  The theorems below close the gap from the
+other side: a file hands a `.du32 n` to its includer only if its OWN table has `n` announced (an entry without a value),
+an entry arises announced only from the file's own `.import n` (of a name the includer has announced) or `.global n`
+(or from a `.global` of a file it includes, `frame_global`), and a name the file has no entry for is `no such local
+constant` at the end of the file — never looked up in the includer.  So the licence chain of a handed-up use starts at
+the using file. -/
+
+/-- C14.isolation (retries: unknown names stay in the file)  The retry of `.du32 n` at the end of its file (or in the
+includer), for a name the table it reads has NO entry for, is the diagnostic `no such local constant`; nothing is handed
+up, no table is read further out. -/
+theorem isolation_retry_unannounced {s : State} {l : Table} {n : Bytes} {tag : Nat} {g : Bool}
+    (hd : s.depth ≠ 0) (hl : s.locals = some l) (hr : isReg n = false) (hn : l.find n = none) :
+    runTask s (.use n none tag g) = .ok (s.err tag .nfLocal, some .trivial) := by
+  simp [runTask, runUse, applyUse, hr, State.hasCurrFile, hd, getConstant, hl, Table.get, hn]
+
+/-- C14.isolation (retries: what is handed up)  At any position of a project started from `Context::new()`, let the
+current file — table `l`, task list `ts` — end.  The list that receives what the file hands up (its includer's
+`local_tasks`; the real global list for a root file) afterwards holds what it held before (`s.globalTasks`: while the
+file is open the includer's list sits there) plus only tasks `use n _ tag true` that are the stage-2 form of one of the
+file's OWN `.du32 n` retries, for names the file's own table has ANNOUNCED (`l.find n = some none`).  Together with
+`isolation_retry_exit` (the value such a task later writes is licensed for the includer): a use handed up to the includer
+resolves only to a name the using file had announced — imported or declared global — itself. -/
+theorem isolation_retry_handed_up {s s' : State} {ctx : List (Nat × Body)} (hw : ∀ p ∈ ctx, p.2.wf) (hne : ctx ≠ [])
+    (hr : Reach init ctx s) (hm : s.mode = .running ∨ ∃ l, s.mode = .stopped l 0) (h : step s .exit = .ok s') :
+    ∃ l ts, s.locals = some l ∧ s.localTasks = some ts ∧
+      ∀ t ∈ outTasks s', t ∈ s.globalTasks ∨
+        ∃ n c c0 tag, t = .use n c tag true ∧ Task.use n c0 tag false ∈ ts ∧ l.find n = some none := by
+  have hi := reach_inv inv_init ctx hr
+  have hf : s.frames ≠ [] := by
+    rcases (reach_lic inv_init rfl [] 0 ctx hw hr).1 with h1 | h1
+    · exact absurd h1 hne
+    · exact h1
+  have hd : s.depth ≠ 0 := by
+    rw [hi.depth]; intro h0; exact hf (List.eq_nil_of_length_eq_zero h0)
+  obtain ⟨l, hl⟩ := Option.isSome_iff_exists.1 (hi.inFile hf).locals
+  obtain ⟨ts, hts⟩ := Option.isSome_iff_exists.1 (hi.inFile hf).ltasks
+  have hex : ∃ res, exitFile s res = .ok s' := by
+    rcases hm with hm | ⟨lv, hm⟩
+    · exact ⟨none, by simpa only [step, hm] using h⟩
+    · exact ⟨some lv, by simpa only [step, hm] using h⟩
+  obtain ⟨res, hex⟩ := hex
+  exact ⟨l, ts, hl, hts, exit_handUp hd hl hts hf hex⟩
+
+/-- C14.isolation (where an announced entry comes from)  A statement of the file makes an entry of the file's own table
+"announced" (present, no value) only if it is `.import m` of a name the includer has announced, or `.global m`. -/
+theorem announce_origin {s s' : State} {l l' : Table} {op : Op} {r : Option Level} {m : Bytes}
+    (hl : s.locals = some l) (h : stmt s op = .ok (s', r)) (hl' : s'.locals = some l') (hm : l'.find m = some none) :
+    l.find m = some none ∨ (∃ tag, op = .import m tag ∧ s.globals.find m = some none) ∨ (∃ tag, op = .global m tag) := by
+  have same : s'.locals = s.locals → l.find m = some none := by
+    intro e; rw [hl', hl] at e; cases e; exact hm
+  cases op with
+  | enter tag => simp only [stmt] at h; cases h; exact .inl (same rfl)
+  | exit => simp only [stmt] at h; cases h; exact .inl (same rfl)
+  | finalize => simp only [stmt] at h; cases h; exact .inl (same rfl)
+  | label n v tag =>
+    obtain ⟨_, l'', e, hall⟩ := isolation_define hl (.inr h)
+    rw [hl'] at e; cases e
+    rcases hall m with h1 | ⟨_, h1⟩
+    · exact .inl (h1 ▸ hm)
+    · rw [h1] at hm; cases hm
+  | const n v tag =>
+    obtain ⟨_, l'', e, hall⟩ := isolation_define hl (.inl h)
+    rw [hl'] at e; cases e
+    rcases hall m with h1 | ⟨_, h1⟩
+    · exact .inl (h1 ▸ hm)
+    · rw [h1] at hm; cases hm
+  | global n tag =>
+    obtain ⟨⟨l'', e, hall⟩, _⟩ := frame_global hl h
+    rw [hl'] at e; cases e
+    rcases hall m with h1 | ⟨h1, _, _⟩
+    · exact .inl (h1 ▸ hm)
+    · exact .inr (.inr ⟨tag, by rw [h1]⟩)
+  | «import» n tag =>
+    obtain ⟨_, l'', e, hall⟩ := isolation_import hl h
+    rw [hl'] at e; cases e
+    rcases hall m with h1 | ⟨h1, h2⟩
+    · exact .inl (h1 ▸ hm)
+    · subst h1
+      exact .inr (.inl ⟨tag, rfl, by rw [← h2]; exact hm⟩)
+  | «export» n tag => exact .inl (same (frame_export hl h).1)
+  | use n tag => exact .inl (same (isolation_use h).1)
+
+/-! ## export over an ANNOUNCED includer entry succeeds
+
+`dup_export_existing` is the diagnostic for exporting over a VALUED entry of the includer.  If the includer's entry is
+only announced (declared by `.global`, or imported while unvalued: present, no value) the export is accepted and fills
+it — the README's "deferred constant receives its value".  Reading of the property's "exporting a name the includer
+already has … always a diagnostic" that is proved: "already has WITH A VALUE". -/
+
+/-- C14.export_fills_announced  `.export n` of a valued name over an includer entry that is announced but unvalued
+succeeds without diagnostic: the includer's entry receives the file's value, the file continues, nothing else changes. -/
+theorem export_fills_announced {s : State} {f : Saved} {fs : List Saved} {l : Table} {n : Bytes} {v : Int} {tag : Nat}
+    (hm : s.mode = .running) (hf : s.frames = f :: fs) (hl : s.locals = some l)
+    (hdef : l.find n = some (some v)) (hg : s.globals.find n = some none) (hr : isReg n = false) :
+    step s (.export n tag) = .ok { s with globals := s.globals.set n (some v) } := by
+  simp [step, hm, hf, stmt, doExport, getConstant, Table.get, hl, hdef, insertConstant, hr, hg]
+
 /-! ## non-vacuity -/
 
 /-- the names of the register file are reserved, case-insensitively; ordinary names are not -/
@@ -757,5 +858,22 @@ task loop, after the includer defined `y` below the `.include` -/
 example : (run init [.enter 0, .global y 9, .enter 1, .use x 2, .import y 8, .use y 3, .const x 7 4, .exit,
       .const y 5 5, .exit, .finalize]).toOption.map (·.log.reverse) =
     some [.value 2 7 1, .value 3 5 2, .done true] := by decide
+
+private def q : Bytes := bytesOf "q"
+
+/-- the auditor's case: `q` is only a local of the includer; the included file's `.du32 q` is `no such local constant`
+at the end of that file (stage 1), it is never handed up -/
+example : (run init [.enter 0, .const q 5 1, .enter 2, .use q 3, .exit, .use q 4, .exit, .finalize]).toOption.map
+      (·.log.reverse) = some [.diag 3 .nfLocal, .diag 2 .asmFailed, .done false] := by decide
+
+/-- handing up needs an announced entry: the includer announces `q` (`.global`), the included file imports it while
+unvalued and uses it, the includer defines it afterwards — the use is written at stage 2 -/
+example : (run init [.enter 0, .global q 1, .enter 2, .import q 3, .use q 4, .exit, .const q 9 5, .exit,
+      .finalize]).toOption.map (·.log.reverse) = some [.value 4 9 2, .done true] := by decide
+
+/-- `export_fills_announced` on a run: the includer announces `q`, the included file defines and exports it: accepted,
+the includer sees the child's value -/
+example : (run init [.enter 0, .global q 1, .enter 2, .const q 7 3, .export q 4, .exit, .use q 5, .exit,
+      .finalize]).toOption.map (·.log.reverse) = some [.value 5 7 0, .done true] := by decide
 
 end Trion.Scope
